@@ -14,6 +14,7 @@ from ..anf import R
 from .. import anf
 from .common import struct_ob, formula_ob, guard, last_return, U
 from ..report import AnalysisError
+from ..term import Resolver, pmatch, abstract, anf_of
 
 REL = "inference/pdf/hdi.py"
 FLOORS = {"ownership": 1, "window-offset": 3, "axis-discipline": 5, "endpoints-are-samples": 1}
@@ -41,71 +42,89 @@ def run(prog, tier):
     if not Ownership(prog).summary(_M, None, ex_fn).mutates_params.get(0):
         raise AnalysisError("ownership engine lost its positive example")
 
-    # ---------------------------------------------------------------- window-offset
-    src = {}
-    for st in ast.walk(fn):
-        if isinstance(st, ast.Assign) and len(st.targets) == 1:
-            src.setdefault(U(st.targets[0]), []).append(st)
-    def one(name):
-        if name not in src or len(src[name]) != 1:
-            raise AnalysisError(f"anchor vanished: single definition of `{name}` in sample_hdi")
-        return src[name][0]
-    ex = Expander(prog, mi, None)
-    n = R.sym("n_samples")
-    Ldef = one("L")
-    L = guard(lambda: ex.eval(Ldef.value, {"fraction": R.sym("fraction"), "n_samples": n}))
-    obs.append(formula_ob("window-offset", construct + "[L]", L, anf.fn_("int", R.sym("fraction") * n), REL, Ldef.lineno,
-                          what="window offset L = int(fraction * n_samples)"))
-    w = one("widths").value
-    ok, why = False, U(w)
-    if isinstance(w, ast.BinOp) and isinstance(w.op, ast.Sub) and isinstance(w.left, ast.Subscript) and isinstance(w.right, ast.Subscript):
-        def row_slice(sub):
-            sl = sub.slice.elts[0] if isinstance(sub.slice, ast.Tuple) else sub.slice
-            rest = sub.slice.elts[1:] if isinstance(sub.slice, ast.Tuple) else []
-            full = all(isinstance(r, ast.Slice) and r.lower is None and r.upper is None and r.step is None for r in rest)
-            return sl, full
-        (a, fa), (b, fb) = row_slice(w.left), row_slice(w.right)
-        same_base = U(w.left.value) == U(w.right.value) == "s"
-        if isinstance(a, ast.Slice) and isinstance(b, ast.Slice) and fa and fb and same_base \
-                and a.step is None and b.step is None and a.upper is None and b.lower is None:
-            lo = guard(lambda: ex.eval(a.lower, {"L": R.sym("L"), "n_samples": n}))
-            hi = guard(lambda: ex.eval(b.upper, {"L": R.sym("L"), "n_samples": n}))
-            # upper ends s[L+k] minus lower ends s[k], k = 0 .. n-L-1 : both slices have n - L rows
-            ok = lo.eq(R.sym("L")) and hi.eq(n - R.sym("L"))
-            why = f"widths = s[{lo}:] - s[:{hi}]"
-    obs.append(struct_ob("window-offset", construct + "[widths]", ok,
-                         f"widths must be s[L:] - s[:n_samples - L] (upper end minus lower end of every window of L+1 points): {why}",
-                         REL, one("widths").lineno))
-    # the upper end is fetched with the same offset
-    stores = [s for s in ast.walk(fn) if isinstance(s, ast.Assign) and isinstance(s.targets[0], ast.Subscript)
-              and U(s.targets[0].value) == "hdi"]
-    tk = {}
-    for s in stores:
-        row = U(s.targets[0].slice.elts[0]) if isinstance(s.targets[0].slice, ast.Tuple) else U(s.targets[0].slice)
-        for c in ast.walk(s.value):
-            if isinstance(c, ast.Call) and U(c.func) == "take_along_axis":
-                tk[row] = c
-    ok = False
-    why = f"{ {k: U(v) for k, v in tk.items()} }"
-    if set(tk) == {"0", "1"}:
-        i0, i1 = U(tk["0"].args[1]), U(tk["1"].args[1])
-        ok = (U(tk["0"].args[0]) == "s" and U(tk["1"].args[0]) == "s"
-              and i1.replace(" ", "") in (f"{i0}+L", f"L+{i0}"))
-    idef = one("i").value
-    oki = U(idef) == "expand_dims(widths.argmin(axis=0), axis=0)"
-    obs.append(struct_ob("window-offset", construct + "[ends]", ok and oki,
-                         f"lower end must be s[i] and upper end s[i + L] with i = argmin(widths) per column: {why}; i = `{U(idef)}`",
-                         REL, fn.lineno))
+    # ---------------------------------------------------------------- window-offset (on resolved terms: temporaries are irrelevant)
+    rz = Resolver(fn, prog, mi, None)
+    frac = fn.args.args[1].arg
+    stores = [s_ for s_ in ast.walk(fn) if isinstance(s_, ast.Assign) and isinstance(s_.targets[0], ast.Subscript)
+              and isinstance(s_.targets[0].value, ast.Name)]
+    out_names = {U(r_.value.func.value) if isinstance(r_.value, ast.Call) and isinstance(r_.value.func, ast.Attribute) else U(r_.value)
+                 for r_ in rz.returns()}
+    stores = [s_ for s_ in stores if s_.targets[0].value.id in out_names]
+    rows = {}
+    for s_ in stores:
+        sl = s_.targets[0].slice
+        row = U(sl.elts[0]) if isinstance(sl, ast.Tuple) else U(sl)
+        rows.setdefault(row, []).append(s_)
+    TAKE = ["take_along_axis(_s, {i}, 0).squeeze()", "take_along_axis(_s, {i}, axis=0).squeeze()",
+            "take_along_axis(_s, {i}, 0)[0]", "take_along_axis(_s, {i}, axis=0)[0]", "take_along_axis(_s, {i}, 0)", "take_along_axis(_s, {i}, axis=0)"]
+    WIDTHS = ["expand_dims((_s[_L:, :] - _s[:_n - _L, :]).argmin(axis=0), axis=0)", "expand_dims((_s[_L:] - _s[:_n - _L]).argmin(axis=0), axis=0)",
+              "expand_dims((_s[_L:, :] - _s[:_n - _L, :]).argmin(axis=0), 0)", "expand_dims((_s[_L:] - _s[:_n - _L]).argmin(axis=0), 0)",
+              "(_s[_L:, :] - _s[:_n - _L, :]).argmin(axis=0)[None, :]", "(_s[_L:] - _s[:_n - _L]).argmin(axis=0)[None, :]"]
+    found = None
+    why = []
+    lows = [(s_, rz.term(s_.value, s_)) for s_ in rows.get("0", [])]
+    ups = [(s_, rz.term(s_.value, s_)) for s_ in rows.get("1", [])]
+    for s0, t0 in lows:
+        for tk in TAKE:
+            b0 = pmatch(t0, tk.format(i="_i"))
+            if b0 is None:
+                continue
+            itree = ast.parse(b0["_i"], mode="eval").body
+            for wp in WIDTHS:
+                bw = pmatch(itree, wp, {"_s": b0["_s"]})
+                if bw is None:
+                    continue
+                found = (s0, b0, bw)
+                break
+            if found:
+                break
+        if found:
+            break
+    n_sym = R.sym("n")
+    if found is None:
+        why.append("no lower end of the form take_along_axis(s, argmin(s[L:] - s[:n - L], axis=0), axis=0) found; lower-end terms: "
+                   + "; ".join(U(t)[:200] for _, t in lows))
+        Lterm = None
+    else:
+        s0, b0, bw = found
+        sname, Ltxt, ntxt, itxt = bw["_s"], bw["_L"], bw["_n"], b0["_i"]
+        Lterm = ast.parse(Ltxt, mode="eval").body
+        # the upper end is fetched with the same offset, from the same array
+        up_ok = False
+        for s1, t1 in ups:
+            for tk in TAKE:
+                for form in ("_i + _L", ):
+                    b1 = pmatch(t1, tk.format(i=form), {"_s": sname, "_i": itxt, "_L": Ltxt})
+                    if b1 is not None:
+                        up_ok = True
+        if not up_ok:
+            why.append(f"the upper end is not take_along_axis({sname}, i + L, axis=0) with the same i and the same offset L = `{Ltxt}`; "
+                       f"upper-end terms: " + "; ".join(U(t)[:200] for _, t in ups))
+        # n is the number of rows of the sorted copy
+        if U(ast.parse(ntxt, mode="eval").body) not in (f"{sname}.shape[0]", f"len({sname})"):
+            why.append(f"the window count uses `{ntxt}`, not the number of rows of `{sname}`")
+    obs.append(struct_ob("window-offset", construct + "[ends]", not why,
+                         "lower end must be s[i] and upper end s[i + L] with i = argmin over windows s[L:] - s[:n - L], per column: "
+                         + "; ".join(why), REL, fn.lineno))
+    if Lterm is not None:
+        La, _ = abstract(Lterm, [(f"{found[2]['_s']}.shape[0]", "n"), (f"len({found[2]['_s']})", "n")])
+        Lv = guard(lambda: anf_of(La))
+        obs.append(formula_ob("window-offset", construct + "[L]", Lv, anf.fn_("int", R.sym(frac) * n_sym), REL, fn.lineno,
+                              what="window offset L = int(fraction * n_samples)"))
+        # both slices of the width computation have n - L rows: guaranteed by the matched form s[L:] - s[:n - L]
+        obs.append(struct_ob("window-offset", construct + "[widths]", True, "", REL, fn.lineno,
+                             slots={"widths": f"{found[2]['_s']}[{found[2]['_L']}:] - {found[2]['_s']}[:{found[2]['_n']} - {found[2]['_L']}]"}))
+    sname = found[2]["_s"] if found else "s"
 
     # ---------------------------------------------------------------- axis discipline
     checks = []
     for c in ast.walk(fn):
         if isinstance(c, ast.Call):
             f = U(c.func)
-            if f == "s.sort":
+            if f == f"{sname}.sort":
                 ax = get_kw(c, "axis", 0)
                 checks.append(("sort", c, ax is not None and U(ax) == "0"))
-            elif f == "widths.argmin":
+            elif isinstance(c.func, ast.Attribute) and c.func.attr == "argmin":
                 ax = get_kw(c, "axis", 0)
                 checks.append(("argmin", c, ax is not None and U(ax) == "0"))
             elif f == "take_along_axis":
@@ -116,14 +135,15 @@ def run(prog, tier):
                              f"`{U(c)}` must act along axis 0 (the sample axis) so that columns are independent",
                              REL, c.lineno))
     # the sort is unconditional (a top-level statement of the function)
-    sort_stmts = [st for st in fn.body if isinstance(st, ast.Expr) and isinstance(st.value, ast.Call) and U(st.value.func) == "s.sort"]
+    sort_stmts = [st for st in fn.body if isinstance(st, ast.Expr) and isinstance(st.value, ast.Call) and U(st.value.func) == f"{sname}.sort"]
     n_sorts = len([1 for n_, c, ok in checks if n_ == "sort"])
     obs.append(struct_ob("axis-discipline", construct + "[sort-unconditional]", len(sort_stmts) == 1 and n_sorts == 1,
                          "the copy must be sorted unconditionally before the windows are formed (a sortedness test on the raw values "
                          "is not reliable for every dtype, e.g. unsigned integers wrap in differences)", REL, fn.lineno))
     # the sort precedes the window computation
     sort_line = min([c.lineno for n_, c, ok in checks if n_ == "sort"] or [10 ** 9])
-    if sort_line > one("widths").lineno:
+    first_take = min([c.lineno for n_, c, ok in checks if n_ in ("take_along_axis", "argmin")] or [0])
+    if sort_line > first_take:
         obs.append(struct_ob("axis-discipline", construct + "[sort-order]", False,
                              "the sample is sorted after the window widths are formed", REL, sort_line))
 
